@@ -194,9 +194,26 @@ func executeRestore(ctx context.Context, stdout io.Writer, cfg restoreConfig, s3
 
 	restoreCommitted := false
 	targetCreated := false
+	var result *storage.TopicRecoveryResult
 	defer func() {
 		if restoreCommitted || !targetCreated {
 			return
+		}
+		// Once the copy has returned successfully the copied objects are ours
+		// to remove; a failure in the metadata steps below must not leave
+		// them behind under the target topic.
+		if result != nil {
+			for i := len(result.Partitions) - 1; i >= 0; i-- {
+				segments := result.Partitions[i].Segments
+				for j := len(segments) - 1; j >= 0; j-- {
+					if err := s3Client.DeleteIndex(context.Background(), segments[j].TargetIndex); err != nil {
+						fmt.Fprintf(os.Stderr, "warning: failed to remove restored index %s: %v\n", segments[j].TargetIndex, err)
+					}
+					if err := s3Client.DeleteSegment(context.Background(), segments[j].TargetKey); err != nil {
+						fmt.Fprintf(os.Stderr, "warning: failed to remove restored segment %s: %v\n", segments[j].TargetKey, err)
+					}
+				}
+			}
 		}
 		if err := store.DeleteTopic(context.Background(), cfg.TargetTopic); err != nil {
 			if !errors.Is(err, metadata.ErrUnknownTopic) {
@@ -221,7 +238,7 @@ func executeRestore(ctx context.Context, stdout io.Writer, cfg restoreConfig, s3
 		return err
 	}
 
-	result, err := storage.RecoverTopicToTimestamp(ctx, s3Client, storage.TopicRecoveryConfig{
+	result, err = storage.RecoverTopicToTimestamp(ctx, s3Client, storage.TopicRecoveryConfig{
 		SourceNamespace: cfg.SourceNamespace,
 		SourceTopic:     cfg.SourceTopic,
 		TargetNamespace: cfg.TargetNamespace,
